@@ -45,6 +45,56 @@ claim("C23", "model_checking",
       "Decides, for arbitrary input bytes up to the bound and every split point of a two-frame stream, that Adapter.Decode/DecodeFrame/decodeLength never panic or read out of range, never report progress on an incomplete frame, and return exactly the wholly contained frames.",
       "Inputs longer than the bound and the encrypted path are outside the claim. " + TB)
 
+
+claim("C01", "other",
+      "Slice (obligation O2 of the decomposition in DESIGN 5/C01): decides, for a 3-voter cluster with arbitrary replica logs under the stated reachability invariant and every responder quorum, whether the recovery a new leader runs inside Install (recoverQuorumPrefix, and the one-round rule selectRecoveryPrefix) keeps an acknowledged entry. It does not: known finding C01-F1 (fewer than Q responders hold the acknowledged identity); outside that pattern the obligation is unsat. Composition into the history-level statement is a paper argument.",
+      "Logs up to length 2 (3 thorough); probe dispatcher is a synchronous fake over the cluster summary; identities are an injective function of the variant prefix (stands for the hash chain). Repair, barrier, durable round and real transport are not encoded here. " + TB)
+claim("C06", "model_checking",
+      "One inductive step: from an arbitrary ChannelState satisfying the stated invariant, every machine transition (ApplyMeta, ProposeAppend(Batch), ApplyAppendStored, ApplyQuorumCommitted, ApplyFollowerAck, CancelAppendWaiter, AbortAppendBatchProposal) preserves the invariant, never lowers HW within a fence, answers quorum waiters only when HW covers them, answers each op at most once, ignores stale-fence results and rejects older/same-epoch-leader-switch metadata.",
+      "Bounded sizes (<=3 ISR, <=2 pending waiters of 1-2 records, op ids/node ids concrete), all scalars 64-bit symbolic; follower ack offset <= LEO is the reactor's precondition (read at its three call sites). Histories follow by induction (paper). " + TB)
+claim("C10", "model_checking",
+      "Decides the retention gates (retentionTrimDecision/minISRMatchOffset, boundary monotonicity, worker trim gate) and, for arbitrary read requests and store states, that Service.readLocalCommitted / ReadCommittedBatch / forwarded reads / conversation heads / SyncMessages return only messages with retention < seq <= committed and never SyncOnce records.",
+      "The Pebble-backed store adapter is replaced by a fake of the channelstore.ChannelStore port answering by the ReadCommitted contract; physical trimming inside Pebble and the worker-pool goroutine hop are outside. " + TB)
+claim("C15", "model_checking",
+      "Decides on fully symbolic rows that resolveMonotonicChannelRuntimeMeta and the batch upsert/create/retention-advance paths never regress (epoch pair lexicographic, same-pair leader/lease, retention, fence version), return the stored row unchanged on stale/conflict, and raise the route generation on every route change (checked against an independent change predicate).",
+      "Replica/ISR lists up to length 2 (3 thorough); route generation saturation at 2^64-1 stated; batch entries run the staged op against a detached engine batch with the commit-state overlay pre-seeded. " + TB)
+claim("C16", "model_checking",
+      "Decides monotonicity of ReadSeq, DeletedToSeq, AckSeq, UpdatedAt, ActivatedAt (except Hide) for the pure resolvers and for the real batch commands (advance read, activate, hide, upsert, ensure, CMD ack/tombstone/upsert), including all 2-step (3 thorough) command histories on one commit state; older SourceVersion writes change nothing; tombstoned rows ignore personal-state commands.",
+      "Incarnation boundaries (newer SourceVersion on a fenced row, tombstone revival) assert only the documented installs (DESIGN 3). Shard-level closures that read through Pebble and the directory pagination clause are not claimed. " + TB)
+claim("C19", "other",
+      "Slice (first clause): Store.Save executed over a crash-model file system (volatile/durable content and directory entries; crash before any operation or inside a write; kill or power-loss recovery; error injection at every operation): afterwards the main path holds exactly the previous or exactly the new bytes, and Load opens only the main path.",
+      "os.* calls are modelled (no native replay possible); rename atomicity is the POSIX contract; the checksum clause (encoding/json) is not claimed. " + TB)
+claim("C20", "model_checking",
+      "Decides Lookup totality, encode/decode identity (incl. migrations and phases), decoder robustness on arbitrary bytes, version discipline of every mutator, and for rebalance/add/remove plans: distinct hash slots, From = current owner, To != From, and a balanced table after applying the plan, for every assignment of the stated sizes.",
+      "H <= 6 hash slots (8 thorough), slot ids 1..3 (4), <=2 migrations; add/remove from balanced tables (DESIGN 3); decoder count field restricted to small values plus representatives. " + TB)
+claim("C24", "other",
+      "Slice: decides that every frame<->JSON-RPC message conversion (ToFrame/FromFrame, *Params.ToProto, FromProto*, setting/header flag mappings, request-id stamping, reply-token FIFO) carries every field without loss or swap, and IsJSONObjectPrefix on arbitrary bytes.",
+      "encoding/json Encode/Decode (reflection) is outside: the 'arbitrary JSON never panics' clause is not claimed; int->uint8 narrowings assumed to fit. " + TB)
+claim("C25", "model_checking",
+      "Decides CBC chaining + PKCS#7 + base64 round trip for every payload length 0..33 (49 thorough), rejection of malformed padding without out-of-range access, session key agreement, and that SendMsgKey/ValidateSendPacket accept the genuine key and reject any single-field tamper; AES/MD5/X25519 abstract.",
+      "Primitives are algebraic contracts (permutation per key, injective hash, DH commutativity); a proven base64 Decode(Encode(x)) = x lemma is used as a rewrite. " + TB)
+claim("C27", "model_checking",
+      "Decides round trip, rejection of every strict prefix and panic-freedom / bounded allocation on arbitrary bytes for the net, propose, slot-FSM TLV, replication exchange and channels RPC codecs (message types listed in evidence).",
+      "uvarint codecs: one full-range integer per scenario, others one byte; replication garbage uses restricted byte values; pkg/controller/command (encoding/json) excluded; messages carrying ch.Meta/time.Time not covered. " + TB)
+claim("C29", "other",
+      "Slice: decides for batches of up to 3-4 prepared sends and arbitrary appender answers that completions align one per position, logical duplicates share the owner's id/sequence with exactly one commit, same key with different payload is never coalesced, the coalescing guard never skips a coalescible pair, the live/failed partition preserves order, and ordered drain delivers in sequence. Known finding C29-F1 (two leading failed items).",
+      "Commands are concrete members of 7 key classes (the fingerprint table index defeats the solver); cross-batch retries, concurrent writers and back-pressure are outside. " + TB)
+claim("C32", "model_checking",
+      "Decides against a reference model, for every history of up to 3 operations (4 thorough) over small key domains with symbolic clocks: PendingCount equals the outstanding deliveries, every result equals the model's, rollback of a failed re-delivery keeps the committed entry, session close and expiry remove exactly the model's set.",
+      "Sequential histories only (each method is one shard critical section). " + TB)
+claim("C33", "model_checking",
+      "Decides for histories of up to 3 operations (4 thorough): operations under a non-installed authority are fenced without state change, an unregistered route never reappears at or below its unregister sequence (known finding C33-F1 for sequence 0), expiry removes exactly routes idle longer than the TTL, lookups are deterministically ordered.",
+      "Sequential histories only; 2 shards, 1-2 hash slots, 3 identities. " + TB)
+claim("C34", "model_checking",
+      "Decides on unconstrained 64-bit rows that the unread count equals the saturating reference over the effective read point, that LastMessage respects the join/delete/retention floors, that ClearUnread yields 0 and SetUnread(N) at most N, and that the cursor passed to the store never lowers ReadSeq.",
+      "Port fakes answer arbitrarily within their contracts. " + TB)
+claim("C35", "model_checking",
+      "Decides symmetry, decode-inverts-encode, normalisation identity, the membership gate, '@'-in-uid safety and command/agent channel reversibility for every uid of the stated lengths over all byte values.",
+      "uids up to 3 bytes (4 thorough); CRC-32 modelled exactly as its GF(2)-affine closed form for C35 (validated against hash/crc32 on first use and by the native self-test). " + TB)
+claim("C36", "model_checking",
+      "Differential: for every combination of permission facts (one shared symbolic fact table behind both port sets) the per-send and the batched permission paths return the same reason and error-ness for group and well-formed person channels; disbanded channels never yield success or a membership reason; system senders skip only the non-terminal checks. Known finding C36-F1 (malformed person id with NormalizePersonChannel=false).",
+      "Channel ids/uids are constants; permission cache off. " + TB)
+
 def main():
     props = [json.loads(l) for l in open(os.path.join(ROOT, 'properties.jsonl'))]
     checks, na = [], []
